@@ -23,6 +23,12 @@ pub fn exclusive() -> bool {
     EXCLUSIVE.load(Ordering::SeqCst)
 }
 
+/// Name of the build profile this binary was asked to report as (set by run.sh for the second pass); None = the primary
+/// build (optimised, debug assertions and overflow checks ON)
+pub fn profile_pass() -> Option<String> {
+    std::env::var("BPPMC_PROFILE").ok().filter(|s| !s.is_empty())
+}
+
 pub fn verif_dir() -> String {
     std::env::var("BPPMC_VERIF_DIR").unwrap_or_else(|_| "/verif".to_string())
 }
@@ -617,12 +623,16 @@ impl Report {
             let dir = PathBuf::from(verif_dir()).join("replays");
             let _ = fs::create_dir_all(&dir);
             for (key, what) in self.violations.iter().take(25) {
-                let path = dir.join(format!("{}-{:016x}.json", self.id, fnv(key)));
+                let path = match profile_pass() {
+                    Some(p) => dir.join(format!("{}-{}-{:016x}.json", self.id, p, fnv(key))),
+                    None => dir.join(format!("{}-{:016x}.json", self.id, fnv(key))),
+                };
                 let body = json!({
                     "property": self.id,
                     "tier": self.tier.name(),
                     "case": key,
                     "what": what,
+                    "build_profile": profile_pass().unwrap_or_else(|| "primary (debug assertions and overflow checks on)".into()),
                     "replay_cmd": format!("/verif/run.sh replay {}", path.display()),
                 });
                 let _ = fs::write(&path, serde_json::to_string_pretty(&body).unwrap());
@@ -670,6 +680,10 @@ impl Report {
             for (k, v) in &self.notes {
                 coverage[k] = v.clone();
             }
+            coverage["build_profile"] = json!(match profile_pass() {
+                Some(p) => format!("{}: optimised, debug assertions and overflow checks OFF (what `cargo build --release` gives users of the library)", p),
+                None => "primary: optimised, debug assertions and overflow checks ON".to_string(),
+            });
             let ev = json!({
                 "property_id": self.id,
                 "tier": self.tier.name(),
@@ -682,8 +696,11 @@ impl Report {
             });
             let dir = PathBuf::from(verif_dir()).join("evidence");
             let _ = fs::create_dir_all(&dir);
-            fs::write(dir.join(format!("{}.json", self.id)), serde_json::to_string_pretty(&ev).unwrap())
-                .expect("write evidence");
+            let file = match profile_pass() {
+                Some(p) => format!("{}.{}.json", self.id, p),
+                None => format!("{}.json", self.id),
+            };
+            fs::write(dir.join(file), serde_json::to_string_pretty(&ev).unwrap()).expect("write evidence");
         }
         // a violation observed on the real code is reported as such even if some other case hit a machinery error
         if !self.violations.is_empty() {
